@@ -4,7 +4,7 @@ from __future__ import annotations
 import ast
 import itertools
 
-from .. import astu, flow, patterns, types
+from .. import astu, evid, flow, patterns, types
 from ..cfg import cfg_of
 from ..model import AnalysisError, Func
 from ..report import key_of
@@ -44,7 +44,12 @@ def r1(R, repo):
   arr = mod.assigns.get('ARRAY_ATTR')
   R.require(arr is not None and astu.src(arr) == 'ArrayAttr()', 'ARRAY_ATTR is no longer ArrayAttr()')
   read = set(_type_is_branches(gc, 'value'))
-  R.check(produced == read and len(produced) == 5, key_of(mod.rel, 'attribute kinds written == read'), fl,
+  for f_, x in evid.calls_deep(repo, fl, lambda y: astu.call_name(y) in ('NodeDef', 'NodeRef', 'VariableDef', 'Static', 'ArrayAttr')):
+    if f_ is not fl and astu.call_name(x) in ('Static', 'ArrayAttr'):
+      produced.add(astu.call_name(x))
+  if any(isinstance(n_, ast.Name) and n_.id == 'ARRAY_ATTR' for f_ in [fl] + [r_ for r_ in (repo.resolve_call(mod, y, fl) for y in astu.func_calls(fl)) if isinstance(r_, Func) and r_.mod is mod] for n_ in ast.walk(f_.node)):
+    produced.add('ArrayAttr')
+  R.judge(len(produced) >= 3 and len(read) >= 3, produced == read, key_of(mod.rel, 'attribute kinds written == read'), fl,
           '_graph_flatten writes attribute kinds %s but _graph_unflatten dispatches on %s' % (sorted(produced), sorted(read)))
   last = [n for n in ast.walk(gc.node) if isinstance(n, ast.If)]
   chain_else = None
@@ -59,7 +64,7 @@ def r1(R, repo):
   # top-level dispatch of _graph_unflatten: NodeRef / VariableDef / NodeDef
   un = mod.func('_graph_unflatten')
   top = set(_type_is_branches(un, 'nodedef'))
-  R.check({'NodeRef', 'VariableDef', 'NodeDef'} <= top, key_of(un, 'dispatch on NodeRef / VariableDef / NodeDef'), un, '_graph_unflatten must handle NodeRef, VariableDef and NodeDef graph definitions')
+  R.judge(len(top) >= 2, {'NodeRef', 'VariableDef', 'NodeDef'} <= top, key_of(un, 'dispatch on NodeRef / VariableDef / NodeDef'), un, '_graph_unflatten must handle NodeRef, VariableDef and NodeDef graph definitions')
   for kind, expect in (('Static', 'value.value'), ('NodeRef', 'index_ref[value.index]')):
     ok = False
     for n in ast.walk(gc.node):
@@ -76,28 +81,32 @@ def r2(R, repo):
   la = [n for n in c.nodes if n.kind == 'stmt' and isinstance(n.stmt, ast.Expr) and isinstance(n.stmt.value, ast.Call) and astu.src(n.stmt.value.func) == 'leaves.append']
   pa = [n for n in c.nodes if n.kind == 'stmt' and isinstance(n.stmt, ast.Expr) and isinstance(n.stmt.value, ast.Call) and astu.src(n.stmt.value.func) == 'paths.append']
   if len(la) != 2 or len(pa) != 2:
-    R.fail(key_of(fl, 'one leaf per Variable, one per array attribute'), fl, '_graph_flatten appends leaves at %d sites and paths at %d sites; _graph_unflatten pops one leaf per Variable and one per array attribute' % (len(la), len(pa)))
+    deep = evid.calls_deep(repo, fl, lambda y: astu.src(y.func) == 'leaves.append')
+    if len(deep) == len(la) and len(la) < 2 and len(pa) >= len(la):
+      R.fail(key_of(fl, 'one leaf per Variable, one per array attribute'), fl, '_graph_flatten (and its helpers) append leaves at %d site(s); _graph_unflatten pops one leaf per Variable and one per array attribute' % len(la))
+    else:
+      R.unsure(key_of(fl, 'one leaf per Variable, one per array attribute'), fl, 'leaves.append / paths.append sites not recognised')
     return
   tv = [n for n in c.nodes if n.kind == 'if' and astu.src(n.ast) == 'is_variable']
   ta = [n for n in c.nodes if n.kind == 'if' and 'jax.Array' in astu.src(n.ast) and 'isinstance(value' in astu.src(n.ast)]
   R.require(len(tv) >= 1 and len(ta) == 1, '_graph_flatten: variable / array tests not found')
   var_leaf = [n for n in la if any(c.edge_guarded(n, t, 'T') for t in tv)]
   arr_leaf = [n for n in la if c.edge_guarded(n, ta[0], 'T')]
-  R.check(len(var_leaf) == 1 and len(arr_leaf) == 1, key_of(fl, 'one leaf per Variable, one per array attribute'), fl, 'exactly Variables and array attributes must contribute one leaf each')
+  R.check(len(var_leaf) == 1 and len(arr_leaf) == 1, key_of(fl, 'one leaf per Variable, one per array attribute'), fl, 'exactly Variables and array attributes must contribute one leaf each', evidence=True)
   # paths appended iff leaves are, under `path is not None` / `paths is not None`
   for leafn in la:
     sib = [p for p in pa if (c.can_reach(leafn, p) or c.can_reach(p, leafn)) and not any(c.can_reach(leafn, o) and c.can_reach(o, p) for o in la if o is not leafn)]
-    R.check(len(sib) >= 1, key_of(fl, 'path recorded next to leaf', astu.short(leafn.stmt, 40)), (fl, leafn.stmt), 'every leaves.append must have its paths.append (when paths are requested)')
+    R.check(len(sib) >= 1, key_of(fl, 'path recorded next to leaf', astu.short(leafn.stmt, 40)), (fl, leafn.stmt), 'every leaves.append must have its paths.append (when paths are requested)', evidence=True)
   un = mod.func('_graph_unflatten')
   pops = [x for f in (mod.func('_graph_unflatten.make_variable'), mod.func('_graph_unflatten._get_children')) for x in astu.func_calls(f) if astu.src(x) == 'leaves.popleft()']
-  R.check(len(pops) == 2, key_of(un, 'one pop per Variable, one per array attribute'), un, '_graph_unflatten must pop exactly one leaf per Variable (make_variable) and per ArrayAttr')
+  R.judge(len(pops) >= 1, len(pops) == 2, key_of(un, 'one pop per Variable, one per array attribute'), un, '_graph_unflatten must pop exactly one leaf per Variable (make_variable) and per ArrayAttr')
   for f in (mod.func('_graph_unflatten.make_variable'), mod.func('_graph_unflatten._get_children')):
     cf = cfg_of(f)
     pn = [n for x in astu.func_calls(f) if astu.src(x) == 'leaves.popleft()' for n in cf.nodes_for(x)]
     tg = [n for n in cf.nodes if n.kind == 'if' and astu.src(n.ast) == 'not leaves']
     rs = [n for n in cf.nodes if isinstance(n.stmt, ast.Raise) and 'Not enough leaves' in astu.src(n.stmt)]
-    ok = len(pn) == 1 and tg and rs and any(cf.edge_guarded(rs[0], t, 'T') for t in tg) and any(cf.edge_guarded(pn[0], t, 'F') for t in tg)
-    R.check(ok, key_of(f, 'pop guarded by "not enough leaves"'), f, 'each leaves.popleft() must be preceded by the "Not enough leaves" check')
+    empty = lambda e: isinstance(e, ast.Name) and e.id == 'leaves'
+    evid.judge_guard(R, cf, pn, empty, key_of(f, 'pop guarded by "not enough leaves"'), f, 'each leaves.popleft() must be preceded by the "Not enough leaves" check', absent_is_violation=False)
   uf = mod.func('unflatten')
   R.check('Incorrect number of leaves' in astu.src(uf.node) or 'leaves left' in astu.src(uf.node), key_of(uf, 'left-over leaves rejected'), uf, 'unflatten must raise when leaves remain after rebuilding the graph')
 
@@ -126,7 +135,7 @@ def r3(R, repo):
   R.require(len(look) == 1 and len(reg) == 1 and len(loop) == 1, '_graph_flatten: ref_index lookup / registration / child loop not found')
   rets = [n for n in c.nodes if isinstance(n.stmt, ast.Return) and 'NodeRef(' in astu.src(n.stmt) and c.edge_guarded(n, look[0], 'T')]
   ok = len(rets) == 1 and c.dominated(reg[0], look) and c.dominated(loop[0], reg + [t for t in c.nodes if t.kind == 'if' and astu.src(t.ast) == 'is_graph_node_ or is_variable'])
-  R.check(ok, key_of(fl, 'lookup -> NodeRef, then register, then recurse'), fl, '_graph_flatten must return a NodeRef for an already indexed object, and index a new object before recursing into its children')
+  R.check(ok, key_of(fl, 'lookup -> NodeRef, then register, then recurse'), fl, evidence=True, msg_fail= '_graph_flatten must return a NodeRef for an already indexed object, and index a new object before recursing into its children')
   # kinds: lookup guard must hold for every kind that gets registered
   regt = [t for t in c.nodes if t.kind == 'if' and c.edge_guarded(reg[0], t, 'T')]
   R.require(len(regt) >= 1, '_graph_flatten: registration guard not found')
@@ -139,13 +148,13 @@ def r3(R, repo):
   for kname, env in kinds.items():
     registered = _bool_eval(regt[-1].ast, env)
     looked = _bool_eval(guard, env)
-    R.check((not registered) or looked, key_of(fl, 'a shared %s is found again' % kname), (fl, look[0].stmt),
+    R.check((not registered) or looked, key_of(fl, 'a shared %s is found again' % kname), (fl, look[0].stmt), evidence=True, msg_fail=
             'a %s is entered into ref_index (`%s`) but the lookup `%s` skips it: a %s reachable by two paths is flattened twice instead of once plus a NodeRef (sharing is lost)' % (kname, astu.src(regt[-1].ast), astu.src(lt), kname))
   un = mod.func('_graph_unflatten')
   cu = cfg_of(un)
   reg = [n for n in cu.nodes if isinstance(n.stmt, ast.Assign) and astu.src(n.stmt) == 'index_ref[nodedef.index] = node']
   init = [n for n in cu.nodes if n.kind == 'stmt' and 'node_impl.init(node, _get_children())' in astu.src(n.stmt)]
-  R.check(len(reg) == 1 and len(init) == 1 and cu.dominated(init[0], reg), key_of(un, 'index_ref registered before children are built'), un,
+  R.judge(len(reg) == 1 and len(init) == 1, len(reg) == 1 and len(init) == 1 and cu.dominated(init[0], reg), key_of(un, 'index_ref registered before children are built'), un,
           'index_ref[nodedef.index] = node must come before node_impl.init(node, _get_children()): otherwise a cycle recurses forever or hits a KeyError')
   dup = [n for n in cu.nodes if n.kind == 'if' and astu.src(n.ast) == 'nodedef.index in index_ref']
   R.check(len(dup) == 1, key_of(un, 'duplicate index rejected'), un, '_graph_unflatten must reject a NodeDef whose index was already used')
@@ -153,7 +162,7 @@ def r3(R, repo):
   cm = cfg_of(mv)
   st = [n for n in cm.nodes if isinstance(n.stmt, ast.Assign) and astu.src(n.stmt) == 'index_ref[variabledef.index] = variable']
   rt = [n for n in cm.nodes if isinstance(n.stmt, ast.Return)]
-  R.check(len(st) == 1 and len(rt) == 1 and cm.dominated(rt[0], st), key_of(mv, 'every rebuilt Variable is indexed'), mv, 'make_variable must record the Variable in index_ref on every path')
+  R.judge(len(st) >= 1 and len(rt) >= 1, all(cm.dominated(r_, st) for r_ in rt), key_of(mv, 'every rebuilt Variable is indexed'), mv, 'make_variable must record the Variable in index_ref on every path')
   for q in ('_iter_graph', '_graph_pop'):
     f = mod.func(q)
     cf = cfg_of(f)
@@ -165,7 +174,7 @@ def r3(R, repo):
       chk = [n for n in cf.nodes if n.kind == 'if' and astu.src(n.ast) == 'id(node) in id_to_index']
     lp = [n for n in cf.nodes if n.kind == 'for']
     ok = len(seen) == 1 and len(chk) == 1 and lp and cf.dominated(lp[0], seen) and cf.dominated(seen[0], chk)
-    R.check(ok, key_of(f, 'visited before descending'), f, '%s must mark a node as visited (after checking it) before iterating over its children' % q)
+    R.judge(len(seen) == 1 and len(chk) == 1 and bool(lp), ok, key_of(f, 'visited before descending'), f, '%s must mark a node as visited (after checking it) before iterating over its children' % q)
 
 
 def _flatten_returns_sorted(fn_or_lambda, R, key, where):
@@ -179,7 +188,7 @@ def _flatten_returns_sorted(fn_or_lambda, R, key, where):
     owner = node
   for rv in rets:
     if not (isinstance(rv, ast.Tuple) and len(rv.elts) == 2):
-      return False, 'does not return a (nodes, metadata) pair'
+      return None, 'does not return a (nodes, metadata) pair'
     e = rv.elts[0]
     if isinstance(e, ast.Name) and owner is not None:
       ds = [d for d in flow.defs(owner, e.id) if not isinstance(d[0], tuple)]
@@ -201,7 +210,12 @@ def _flatten_returns_sorted(fn_or_lambda, R, key, where):
       continue
     if isinstance(e, ast.List) and not e.elts:
       continue
-    return False, 'returns `%s`, which is not in sorted key order (sorted(...) / enumerate / [])' % astu.short(e)
+    unsorted = lambda z: (isinstance(z, ast.Call) and astu.call_tail(z) == 'items' and not z.args) or \
+        (isinstance(z, ast.Call) and astu.call_name(z) in ('list', 'tuple') and len(z.args) == 1 and unsorted(z.args[0])) or \
+        (isinstance(z, (ast.ListComp, ast.GeneratorExp)) and len(z.generators) == 1 and unsorted(z.generators[0].iter))
+    if unsorted(e):
+      return False, 'returns `%s`, which is in insertion order, not in sorted key order' % astu.short(e)
+    return None, 'returns `%s`, which is not recognised as sorted(...) / enumerate / []' % astu.short(e)
   return True, ''
 
 
@@ -215,27 +229,28 @@ def r4(R, repo):
       R.require(fl is not None, 'register_pytree_node_type without flatten=')
       n += 1
       ok, why = _flatten_returns_sorted(fl if isinstance(fl, ast.Lambda) else mod.func(astu.src(fl)), R, None, None)
-      R.check(ok, key_of(mod.rel, 'flatten of %s in sorted key order' % astu.src(node.args[0])), (mod, node),
+      R.judge(ok is not None, ok, key_of(mod.rel, 'flatten of %s in sorted key order' % astu.src(node.args[0])), (mod, node),
               'the node implementation registered for %s %s: graph.flatten publishes its paths as already sorted, and merge sorts the merged leaves, so leaf values would be assigned to the wrong Variables' % (astu.src(node.args[0]), why))
   R.require(n >= 4, 'expected >= 4 register_pytree_node_type calls')
   pi = mod.assigns.get('PYTREE_NODE_IMPL')
   R.require(isinstance(pi, ast.Call), 'PYTREE_NODE_IMPL not found')
   fp = mod.func(astu.src(astu.kwarg(pi, 'flatten')))
   ok, why = _flatten_returns_sorted(fp, R, None, None)
-  R.check(ok, key_of(fp, 'generic pytree flatten in sorted key order'), fp, '_flatten_pytree %s' % why)
+  R.judge(ok is not None, ok, key_of(fp, 'generic pytree flatten in sorted key order'), fp, '_flatten_pytree %s' % why)
   up = mod.func('_unflatten_pytree')
   R.check("sorted(nodes, key=lambda x: metadata.key_index[x[0]])" in astu.src(up.node), key_of(up, 'restores the original child order from key_index'), up, '_unflatten_pytree must put the children back in the original order recorded in key_index')
   for m in repo.mods_with('_graph_node_flatten'):
     for q, f in m.funcs.items():
       if q.endswith('._graph_node_flatten'):
         ok, why = _flatten_returns_sorted(f, R, None, None)
-        R.check(ok, key_of(f, 'graph node flatten in sorted key order'), f, '%s %s' % (q, why))
+        R.judge(ok is not None, ok, key_of(f, 'graph node flatten in sorted key order'), f, '%s %s' % (q, why))
         cp = [x for x in astu.func_calls(f) if astu.src(x) == 'vars(self).copy()']
         R.check(len(cp) == 1, key_of(f, 'works on a copy of vars(self)'), f, '%s must not hand out or sort the live instance dict' % q)
   mt = mod.func('_merge_to_flat_state')
   sorts = [x for x in astu.func_calls(mt) if astu.call_tail(x) in ('sort', 'sorted')]
   ok = len(sorts) == 1 and not sorts[0].keywords and ((astu.call_tail(sorts[0]) == 'sort' and not sorts[0].args) or (astu.call_name(sorts[0]) == 'sorted' and len(sorts[0].args) == 1))
-  R.check(ok, key_of(mt, 'merged leaves sorted by path with the plain order'), mt,
+  deep_sorts = evid.calls_deep(repo, mt, lambda y: astu.call_tail(y) in ('sort', 'sorted'))
+  R.judge(len(sorts) == 1 or not deep_sorts, ok, key_of(mt, 'merged leaves sorted by path with the plain order'), mt,
           'graph.merge must sort the merged (path, value) pairs with the plain tuple order (`%s`): flatten emits leaves in that order and unflatten consumes them positionally, so any other key (e.g. stringified paths: 10 < 2) permutes values' % (astu.short(sorts[0]) if sorts else 'no sort'))
   rets = [n_.value for n_ in astu.body_walk(mt.node) if isinstance(n_, ast.Return)]
   R.check(len(rets) == 1 and astu.src(rets[0]) == '[value for _, value in flat_state]', key_of(mt, 'values returned in sorted order'), mt, '_merge_to_flat_state must return the values in sorted path order')
@@ -274,7 +289,7 @@ def r6(R, repo):
              any(isinstance(x, ast.If) and any(isinstance(y, ast.Call) and isinstance(y.func, ast.Name) and y.func.id in astu.names_stored(n.target) for y in ast.walk(x.test)) for x in ast.walk(n))]
     R.require(len(loops) == 1, '%s: predicate loop not found' % qual)
     ok, msg, info = patterns.first_match_loop(f, loops[0])
-    R.check(ok and info.get('else') == want_else, key_of(f, 'first-match loop, unmatched -> %s' % want_else), (f, loops[0]), '%s: %s' % (qual, msg or ('unmatched items handled by `%s`' % info.get('else'))))
+    R.judge(ok is not None, ok and info.get('else') == want_else, key_of(f, 'first-match loop, unmatched -> %s' % want_else), (f, loops[0]), '%s: %s' % (qual, msg or ('unmatched items handled by `%s`' % info.get('else'))))
   sp = repo.func(GR, 'split')
   R.check('_split_state(flat_state, filters)' in astu.src(sp.node) and 'flatten(node)' in astu.src(sp.node), key_of(sp, 'split = flatten + _split_state'), sp, 'graph.split must partition the flat state of flatten(node) with _split_state')
 
